@@ -148,6 +148,7 @@ fn injected() -> io::Error {
 impl State {
     /// Returns Err if this call is to fail.
     fn gate(&mut self, cls: u32, what: &Path) -> io::Result<()> {
+        crate::watchdog::fs_call();
         if let Some((mask, suffix)) = self.fail_by_suffix.as_ref() {
             let task_ok = match self.fail_only_task {
                 Some(t) => shuttle::current::get_current_task().map(usize::from) == Some(t),
